@@ -8,7 +8,7 @@
    report blocks, or refuse a segment number, only once the UEB is known. *)
 From Coq Require Import List NArith Bool Arith.
 From Verif Require Import Model.SegQueue Model.Fetcher Proofs.SegQueueBase Proofs.SegQueueRange Proofs.SegQueueLive
-                          Proofs.SegQueueMeasure Proofs.SegQueueThm Proofs.FetcherWorld Proofs.FetcherLive.
+                          Proofs.SegQueueMeasure Proofs.SegQueueThm Proofs.FetcherWorld Proofs.FetcherLive Proofs.Finder.
 Import ListNotations.
 
 (* In every reachable state: pending segment requests imply an active fetcher for a
@@ -68,6 +68,29 @@ Theorem active_fetcher_terminates :
   exists n o, In o (outs_upto k seg r n) /\ is_final o /\ f_running (fst (gat k seg r n)) = false.
 Proof. exact fair_run_terminates. Qed.
 Print Assumptions active_fetcher_terminates.
+
+(* The share finder (finder.py ShareFinder.loop, model in Model/Fetcher.v): a hungry,
+   running finder with no loop() queued either still has DYHB requests in flight, each
+   with its overdue timer armed or already overdue (so an answer, an error or the timer
+   queues the next loop()), or it has answered the last hungry() call: shares delivered
+   or no_more_shares reported.  `snd` of the ghost-augmented state is that flag. *)
+Theorem finder_never_silently_idle :
+  forall (servers : list N) (m : nat) (evs : list dev),
+  1 <= m ->
+  let g := fst (dgrun (dinit servers m, true) evs) in
+  let s := fst g in
+  d_running s = true -> d_hungry s = true -> d_loops s = 0 ->
+  (d_pending s <> [] /\ forall x, In x (d_pending s) -> In x (d_timers s) \/ In x (d_overdue s)) \/
+  (d_pending s = [] /\ snd g = true).
+Proof. exact finder_never_silently_idle_ok. Qed.
+Print Assumptions finder_never_silently_idle.
+
+(* no_more_shares is reported only when every server was asked and nothing is in flight *)
+Theorem finder_exhaustion_only_when_done :
+  forall s e, In DNoMoreShares (snd (dstep s e)) ->
+  d_servers s = [] /\ d_pending s = [] /\ d_hungry s = true /\ d_running s = true.
+Proof. exact dstep_no_more. Qed.
+Print Assumptions finder_exhaustion_only_when_done.
 
 (* What was wrong: with the old failure branch, a read of segment 0 whose ciphertext
    hash check fails, followed by a read of segment 1, leaves the stopped fetcher of
